@@ -14,6 +14,8 @@ import (
 	"hash"
 	"sort"
 	"strings"
+	"time"
+	"unsafe"
 )
 
 type verifJob struct {
@@ -138,31 +140,31 @@ func verifNext(base string) uint64 {
 	return verifCur.Vars[name]
 }
 
-func verifU8(name string) uint8    { return uint8(verifNext(name)) }
-func verifU16(name string) uint16  { return uint16(verifNext(name)) }
-func verifU32(name string) uint32  { return uint32(verifNext(name)) }
-func verifU64(name string) uint64  { return verifNext(name) }
-func verifUint(name string) uint   { return uint(verifNext(name)) }
-func verifInt(name string) int     { return int(verifNext(name)) }
-func verifI64(name string) int64   { return int64(verifNext(name)) }
-func verifBool(name string) bool   { return verifNext(name) != 0 }
-func verifCase(name string) int    { return int(verifCur.Cases[name]) }
-func verifSymbolic() bool          { return false }
-func verifReach(name string)       {}
-func verifBeginOp()                {}
-func verifEndOp()                  {}
-func verifProtect(v any)           {}
-func verifPoolAdversary(on bool)   {}
-func verifTraceOn(on bool)         {}
-func verifFrameViolations() int    { return 0 }
-func verifUseModelDigests()        { verifUseDigests = true }
-func verifAnd(a, b bool) bool      { return a && b }
-func verifOr(a, b bool) bool       { return a || b }
-func verifImplies(a, b bool) bool  { return !a || b }
-func verifStrEq(a, b string) bool  { return a == b }
-func verifBytesEq(a, b []byte) bool { return string(a) == string(b) }
+func verifU8(name string) uint8                { return uint8(verifNext(name)) }
+func verifU16(name string) uint16              { return uint16(verifNext(name)) }
+func verifU32(name string) uint32              { return uint32(verifNext(name)) }
+func verifU64(name string) uint64              { return verifNext(name) }
+func verifUint(name string) uint               { return uint(verifNext(name)) }
+func verifInt(name string) int                 { return int(verifNext(name)) }
+func verifI64(name string) int64               { return int64(verifNext(name)) }
+func verifBool(name string) bool               { return verifNext(name) != 0 }
+func verifCase(name string) int                { return int(verifCur.Cases[name]) }
+func verifSymbolic() bool                      { return false }
+func verifReach(name string)                   {}
+func verifBeginOp()                            {}
+func verifEndOp()                              {}
+func verifProtect(v any)                       {}
+func verifPoolAdversary(on bool)               {}
+func verifTraceOn(on bool)                     {}
+func verifFrameViolations() int                { return 0 }
+func verifUseModelDigests()                    { verifUseDigests = true }
+func verifAnd(a, b bool) bool                  { return a && b }
+func verifOr(a, b bool) bool                   { return a || b }
+func verifImplies(a, b bool) bool              { return !a || b }
+func verifStrEq(a, b string) bool              { return a == b }
+func verifBytesEq(a, b []byte) bool            { return string(a) == string(b) }
 func verifDependsOn(v any, prefix string) bool { return false }
-func verifAliases(a, b any) bool   { return false }
+func verifAliases(a, b any) bool               { return false }
 
 func verifBytes(name string, n int) []byte {
 	b := make([]byte, n)
@@ -225,9 +227,9 @@ func verifHMACCount() int { return len(verifHmacs) }
 func verifHMACAlg(i int) int {
 	return verifHmacs[i].alg
 }
-func verifHMACKey(i int) []byte    { return verifHmacs[i].key }
-func verifHMACMsg(i int) []byte    { return verifHmacs[i].msg }
-func verifHMACSums(i int) int      { return verifHmacs[i].sums }
+func verifHMACKey(i int) []byte { return verifHmacs[i].key }
+func verifHMACMsg(i int) []byte { return verifHmacs[i].msg }
+func verifHMACSums(i int) int   { return verifHmacs[i].sums }
 func verifHMACDigest(i int) []byte {
 	r := verifHmacs[i]
 	if r.digest == nil {
@@ -319,7 +321,7 @@ func (verifRandReader) Read(p []byte) (int, error) {
 	return len(p), nil
 }
 
-func verifNativeReset() { rand.Reader = verifRandReader{} }
+func verifNativeReset()        { rand.Reader = verifRandReader{} }
 func verifRandMayFail(on bool) {}
 func verifRandCalls() int      { return verifRandCount }
 
@@ -336,3 +338,43 @@ func verifAssertBytesEq(a, b []byte, name string) {
 		verifAssert(a[i] == b[i], fmt.Sprintf("%s[%d]", name, i))
 	}
 }
+
+func verifPrefer(c bool) {}
+
+var verifFixedZone = time.FixedZone("verif", 3*3600+1800)
+
+// verifTime rebuilds the instant of a model, including a monotonic reading
+// (which only time.Now can produce through the public API) by writing the
+// representation directly.
+func verifTime(name string) time.Time { return verifTimeAt(name, -1, -1<<63) }
+
+func verifTimeAt(name string, loc int, secGiven int64) time.Time {
+	sec := int64(verifNext(name + ".sec"))
+	if secGiven != -1<<63 {
+		sec = secGiven
+	}
+	nsec := int64(verifNext(name + ".nsec"))
+	mono := verifNext(name+".mono") != 0
+	monoread := int64(verifNext(name + ".monoread"))
+	locSel := verifNext(name + ".loc")
+	t := time.Unix(sec, nsec)
+	switch locSel {
+	case 0:
+		t = t.UTC()
+	case 2:
+		t = t.In(verifFixedZone)
+	}
+	if mono {
+		type rep struct {
+			wall uint64
+			ext  int64
+			loc  *time.Location
+		}
+		r := (*rep)(unsafe.Pointer(&t))
+		r.wall = 1<<63 | uint64(sec+2682288000)<<30 | uint64(nsec)
+		r.ext = monoread
+	}
+	return t
+}
+
+func verifTimeIn(name string, loc int) time.Time { return verifTime(name) }
